@@ -1,5 +1,6 @@
 import Memterm.Props.C12
 import Memterm.Proofs.DrawFrame
+import Memterm.Spec.C14
 
 /-
   C14 — DECSC/DECRC save and restore the cursor state as a LIFO stack.
@@ -10,11 +11,6 @@ namespace C14
 open Gen
 
 /-! #### DECSC -/
-
-/-- what DECSC records -/
-def snapshot (s : Screen) : Savepoint :=
-  { cursor := s.cursor, g0 := s.g0, g1 := s.g1, g1Active := s.g1Active,
-    origin := s.mode DECOM, wrap := s.mode DECAWM }
 
 /-- DECSC pushes exactly one snapshot and changes nothing else -/
 theorem save_spec (s : Screen) : saveCursor s = { s with savepoints := snapshot s :: s.savepoints } := rfl
@@ -40,12 +36,6 @@ theorem setDecawm (t : Screen) : setModeNoColm t [DECAWM] = addModes t [DECAWM] 
   obtain ⟨_, _, _, f4, f5, f6⟩ := facts
   unfold setModeNoColm hiddenIf homeIf applySetModes
   simp only [f4, f5, f6, Bool.false_eq_true, if_false]
-
-/-- the clamped row: into the scrolling region if one is set, else into the screen -/
-def clampRow (s : Screen) (y : Nat) : Nat :=
-  match s.margins with
-  | some (t, b) => min (max t y) b
-  | none => min y (s.lines - 1)
 
 /-- DECRC with a saved state: pops it; position clamped into the current screen / region,
     rendition, visibility and charset state reinstated, origin mode and autowrap re-enabled
@@ -145,7 +135,7 @@ theorem sp_cursorPosition (s : Screen) (l c : Option Nat) : (cursorPosition s l 
   (C12.quiet_cursorPosition s l c).savepoints
 
 theorem sp_sgr (s : Screen) (a : List Nat) : (selectGraphicRendition s a).savepoints = s.savepoints := by
-  rw [C08.sgr_eq_spec]
+  rw [sgr_frame]
 
 theorem sp_dropRows (s1 : Screen) (h : Inv s1) (l : Nat) : (dropRowsFromTop s1 l).savepoints = s1.savepoints := by
   unfold dropRowsFromTop
@@ -256,36 +246,6 @@ theorem stack_discipline (env : Env) (s : Screen) (h : Inv s) (c : Call) :
 
 /-! #### executable predicate -/
 
-/-- `pre` with the fields DECRC is allowed to change taken from `post` -/
-def adjusted (pre post : Screen) : Screen :=
-  { pre with
-    savepoints := post.savepoints
-    g0 := post.g0
-    g1 := post.g1
-    g1Active := post.g1Active
-    mode := post.mode
-    cursor := post.cursor }
-
-def propC14 (cands : List Nat) (pre : Screen) (c : Call) (post : Screen) : Bool :=
-  match c with
-  | .saveCursor =>
-    decide (post.savepoints = snapshot pre :: pre.savepoints) && decide (post.cursor = pre.cursor) &&
-    sameSettingsB cands { pre with savepoints := post.savepoints } post && sameCellsB pre post && sameDirtyB pre post
-  | .restoreCursor =>
-    (match pre.savepoints with
-     | sp :: rest =>
-       decide (post.savepoints = rest) && decide (post.g0 = sp.g0) && decide (post.g1 = sp.g1) &&
-       post.g1Active == sp.g1Active &&
-       decide (post.cursor = { sp.cursor with x := min sp.cursor.x (pre.columns - 1), y := clampRow pre sp.cursor.y }) &&
-       cands.all (fun m => post.mode m == ((sp.wrap && m == DECAWM) || ((sp.origin && m == DECOM) || pre.mode m)))
-     | [] =>
-       decide (post.savepoints = []) && decide (post.g0 = pre.g0) && decide (post.g1 = pre.g1) &&
-       post.g1Active == pre.g1Active &&
-       decide (post.cursor = { pre.cursor with x := 0, y := 0 }) &&
-       cands.all (fun m => post.mode m == (!(m == DECOM) && pre.mode m))) &&
-    sameSettingsB cands (adjusted pre post) post && sameCellsB pre post && sameDirtyB pre post
-  | _ => decide (post.savepoints = pre.savepoints)
-
 theorem C14_holds (env : Env) (cands : List Nat) (s : Screen) (c : Call) (h : Inv s) :
     propC14 cands s c (step env s c) = true := by
   cases c
@@ -319,3 +279,4 @@ example :
 
 end C14
 end Memterm
+
